@@ -706,7 +706,7 @@ package expr
 //@   params e
 //@   property C10
 //@   opt loopframes none
-//@   unknown_calls_preserve GRPCEndpointExpr.MethodExpr, GRPCEndpointExpr.Metadata, MethodExpr.Payload, MappedAttributeExpr.AttributeExpr, NamedAttributeExpr.Name, elems(*NamedAttributeExpr)
+//@   unknown_calls_preserve GRPCEndpointExpr.MethodExpr, GRPCEndpointExpr.Metadata, GRPCEndpointExpr.Request, MethodExpr.Payload, MappedAttributeExpr.AttributeExpr, NamedAttributeExpr.Name, elems(*NamedAttributeExpr)
 //@   callspec (*AttributeExpr).IsRequired params a n
 //@       ensures result == isReqSpec(a, n)
 //@       modifies nothing
@@ -717,6 +717,9 @@ package expr
 //@   let name = prev(4, ranged(4)[rangeidx(4) + 1].Name)
 //@   let ep = local(e)
 //@   loop 4 step* required.in.metadata: isReqSpec(prev(4, ep.MethodExpr.Payload), name) ==> select(select(mdRequired, ep.Metadata.AttributeExpr.Validation), name)
+//   -- the same for the attributes that stay in the request message (the generated server validates the message with it)
+//@   let mname = prev(5, ranged(5)[rangeidx(5) + 1].Name)
+//@   loop 5 step* required.in.message: isReqSpec(prev(5, ep.MethodExpr.Payload), mname) ==> select(select(mdRequired, ep.Request.Validation), mname)
 
 // ---- a method secured by an API key names the key's attribute (C01, C06) -------------------------
 // "A design is never accepted by validation and then ... turned into uncompilable code": for an API key scheme
